@@ -90,6 +90,11 @@ def main():
     except Undecided as e:
         print(f"UNDECIDED: {e}", file=sys.stderr)
         return 2
+    except Exception as e:  # a defect of the machinery is never an alarm about the code
+        import traceback
+        traceback.print_exc()
+        print(f"UNDECIDED: internal error of the checking machinery: {e!r}", file=sys.stderr)
+        return 2
 
 
 def run(prop, tier, only=None):
@@ -113,7 +118,7 @@ def run(prop, tier, only=None):
 
     # stale replay files of the obligations about to be re-decided are removed
     for oid in [o.id for o in sel] + [o["id"] for o in vobs]:
-        f = VERIF / "replays" / f"{oid}.json"
+        f = vlib.out_dir("replays") / f"{oid}.json"
         if f.exists():
             f.unlink()
     results = []  # per obligation-harness dicts
@@ -129,6 +134,7 @@ def run(prop, tier, only=None):
         violations += kres["violations"]
         known_hits += kres["known_hits"]
         checker_cmds += kres["cmds"]
+    vres = {}
     if vobs:
         vres = vverus.run_obligations(vobs, prop)
         results += vres["results"]
@@ -136,6 +142,22 @@ def run(prop, tier, only=None):
         violations += vres["violations"]
         checker_cmds += vres["cmds"]
 
+    # A verbatim Verus obligation whose extracted function left Verus' language subset (the assembled
+    # file does not compile) is NOT undecided when its Kani twin -- the same contract on the same
+    # function -- was discharged in this run: it is reported as skipped and not counted.
+    if vobs and vres.get("compile_failed_units"):
+        status = {}
+        for r in results:
+            if r.get("role") in ("whole", "outside"):
+                status[r["id"]] = r["status"]
+        for unit in vres["compile_failed_units"]:
+            rs = [r for r in results if r.get("unit") == unit and r["backend"].startswith("verus") and r["kind"] != "canary"]
+            if rs and all(r.get("twin") and status.get(r["twin"]) == "DISCHARGED" for r in rs):
+                for r in [r for r in results if r.get("unit") == unit and r["backend"].startswith("verus")]:
+                    r["status"] = "SKIPPED-OUTSIDE-VERUS-SUBSET (Kani twin discharged)"
+                    r["counts"] = False
+                undecided[:] = [u for u in undecided if not u.startswith(f"VERUS-SUBSET {unit}:")]
+                print(f"NOTE: Verus unit {unit} is outside Verus' subset on this tree; its Kani twins were discharged", file=sys.stderr)
     for k in known_hits:
         print(f"KNOWN-FINDING: property={prop} {k['what']}")
     for v in violations:
@@ -186,7 +208,7 @@ def write_evidence(prop, tier, seed, results, undecided, violations, known_hits,
             ],
             "bounded_note": "bounded obligations are bounded checks with the stated bound; they are never counted in obligations/discharged",
             "per_obligation": [
-                {k: r.get(k) for k in ("id", "harness", "backend", "kind", "role", "status", "checks", "covers", "solver_s", "failed_checks")}
+                {k: r.get(k) for k in ("id", "harness", "backend", "kind", "role", "status", "checks", "covers", "solver_s", "failed_checks", "second_solver")}
                 for r in results
             ],
             "functions_under_contract": [{"function": f, "back_ends": sorted(b)} for f, b in sorted(fns.items())],
@@ -201,7 +223,7 @@ def write_evidence(prop, tier, seed, results, undecided, violations, known_hits,
         "wall_s": round(wall, 2),
         "violations": len(violations),
     }
-    p = VERIF / "evidence" / f"{prop}.json"
+    p = vlib.out_dir("evidence") / f"{prop}.json"
     p.parent.mkdir(exist_ok=True)
     p.write_text(json.dumps(ev, indent=1) + "\n")
 
